@@ -15,7 +15,13 @@ pub struct C07;
 #[derive(Clone, Debug, Serialize, Deserialize)]
 pub enum Case {
     /// a whole binary resultset through the wire
-    Rows { cols: Vec<ColSpec>, rows: Vec<RowProg> },
+    Rows {
+        cols: Vec<ColSpec>,
+        rows: Vec<RowProg>,
+        /// the shim lets the RowWriter go out of scope instead of calling finish()
+        #[serde(default)]
+        drop_writer: bool,
+    },
     /// one value offered to one column through the public encoder (`to_mysql_bin`)
     Single { val: Val, col: ColSpec },
 }
@@ -146,7 +152,7 @@ impl Prop for C07 {
         let nrows = if n > 100 { g.usize_in(1, 2) } else { g.usize_in(1, 6) };
         let mut rows: Vec<RowProg> = (0..nrows).map(|i| gen_row(g, &cols, true, i + 1 == nrows)).collect();
         settle_short_rows(&mut rows, cols.len());
-        Case::Rows { cols, rows }
+        Case::Rows { cols, rows, drop_writer: g.chance(1, 5) }
     }
     fn exec(&self, case: &Case) -> Exec {
         let mut ex = Exec::default();
@@ -170,8 +176,11 @@ impl Prop for C07 {
                     ex.fail(k, m);
                 }
             }
-            Case::Rows { cols, rows } => {
+            Case::Rows { cols, rows, drop_writer } => {
                 ex.class("resultset");
+                if *drop_writer {
+                    ex.class("row-writer-dropped-instead-of-finish");
+                }
                 let nulls = rows.iter().flat_map(|r| r.cells.iter()).filter(|c| c.denotes_null()).count();
                 if cols.len() >= 7 && nulls > 0 {
                     ex.nontrivial = true;
@@ -189,7 +198,7 @@ impl Prop for C07 {
                     vec![Cmd::Prepare { text: Blob::text("p") }, Cmd::Execute { id: 3, params: vec![], send_types: false, flags: 0, iterations: 1 }, Cmd::Ping],
                     vec![
                         Action::Prepare(PrepProg::Reply { id: 3, params: vec![], cols: vec![] }),
-                        Action::Result(Program { steps: vec![Step::Set { cols: cols.clone(), rows: rows.clone(), end: SetEnd::Finish }] }),
+                        Action::Result(Program { steps: vec![Step::Set { cols: cols.clone(), rows: rows.clone(), end: if *drop_writer { SetEnd::DropRowWriter } else { SetEnd::Finish } }] }),
                     ],
                 );
                 if rows.iter().any(|r| r.form == RowForm::ShortEndRow) {
